@@ -85,6 +85,7 @@ class Engine:
         self.exhausted = False
         self.errors = []
         self.outcomes = {}
+        self.prefer = []          # optional constraints tried (in order) to get a small / replayable counterexample
 
     # -- solver
     def _check(self, *extra):
@@ -179,7 +180,12 @@ class Engine:
             raise Abort("concretise: no more values")
         self.last_model = self.s.model()
         v = self.last_model.eval(e, model_completion=True).as_long()
-        self.work.append(self.trace + [("excl", excl + [v])])
+        # push the sibling only if another value exists (saves re-executing the prefix for nothing)
+        r2 = self._check(e != v)
+        if r2 == z3.unknown:
+            raise Abort("unknown")
+        if r2 == z3.sat:
+            self.work.append(self.trace + [("excl", excl + [v])])
         self.trace.append(("pick", v))
         self.s.add(e == v)
         return v
@@ -237,11 +243,19 @@ class Engine:
         self.flush()
         r = self._check(z3.Not(cond))
         if r == z3.sat:
-            self.violations.append(Violation(label, self.s.model(), list(self.trace)))
+            self.violations.append(Violation(label, self._witness_model(z3.Not(cond)), list(self.trace)))
             raise Abort("violated")
         if r == z3.unknown:
             raise Abort("unknown")
         self.s.add(cond)
+
+    def _witness_model(self, neg):
+        """model of the violated obligation, preferring one that satisfies an entry of self.prefer"""
+        m = self.s.model()
+        for extra in self.prefer:
+            if self._check(neg, extra) == z3.sat:
+                return self.s.model()
+        return m
 
     def flush(self):
         if not self.pending:
@@ -250,7 +264,7 @@ class Engine:
         allc = z3.And(*[c for _, c in pend])
         r = self._check(z3.Not(allc))
         if r == z3.sat:
-            m = self.s.model()
+            m = self._witness_model(z3.Not(allc))
             for l, c in pend:
                 if z3.is_false(m.eval(c, model_completion=True)):
                     self.violations.append(Violation(l, m, list(self.trace)))
